@@ -3,6 +3,7 @@
 //!   pzv-hal replay <file>
 #![allow(clippy::too_many_arguments, clippy::needless_range_loop, clippy::type_complexity)]
 
+pub mod c08;
 pub mod c09;
 pub mod env;
 pub mod mods;
@@ -22,6 +23,7 @@ fn main() {
         let (prop, sub, case) = read_replay(&args[1]);
         let ctx = Ctx::from_args(&prop, &[]);
         let code = match prop.as_str() {
+            "C08" => c08::replay(&ctx, &sub, &case),
             "C09" => c09::replay(&ctx, &sub, &case),
             _ => {
                 eprintln!("harness error: pzv-hal cannot replay property {prop}");
@@ -33,6 +35,14 @@ fn main() {
     let prop = args[0].clone();
     let ctx = Ctx::from_args(&prop, &args[1..]);
     let code = match prop.as_str() {
+        "C08" => {
+            c08::run(&ctx);
+            ctx.finish(
+                c08::RULE,
+                &["un-normalised digits are limited to 61 bits (i64 accumulators) so that the reference kernels' + and << cannot overflow in the checked profile", "i64 encode/decode is exercised for k <= 62 at full magnitude and for larger k with values that fit the element type"],
+                &[("truncating_output", 100), ("cross_radix", 100), ("carry_ripple", 50)],
+            )
+        }
         "C09" => {
             c09::run(&ctx);
             ctx.finish(
